@@ -9,7 +9,7 @@ THEOREMS = ["Mesa.Agents." + t for t in (
     "C02_unique_ids_all_histories", "C02_ids_never_change", "C02_remove_atomic_and_idempotent",
     "C02_other_models_untouched", "C02_create_agents_splits_arguments", "C02_sets_nodup_all_histories",
     "C02_other_models_untouched_all_histories", "C02_direct_register_and_deregister",
-    "C02_removed_stays_removed_everywhere")]
+    "C02_removed_stays_removed_everywhere", "C02_copy_of_a_set_shares_nothing")]
 COUNTS = {"quick": 1000, "thorough": 150000}
 TRUSTED = [
     "CPython dict / WeakKeyDictionary keep insertion order; deleting a key keeps the order of the others (the model uses lists)",
@@ -19,7 +19,7 @@ TRUSTED = [
 ]
 ASSUMPTIONS = ["the program changes model.agents only by in-place shuffle/sort (the property's 'explicitly reordered in place'); "
                "select(inplace=True)/add/discard on the registry's own sets are outside the quantifier"]
-RULE = ("random histories over 1-3 coexisting models and a 4-class hierarchy (T0<-T1<-T3, T2): constructor and create_agents "
+RULE = ("random histories over 1-5 coexisting models and a 4-class hierarchy (T0<-T1<-T3, T2): constructor and create_agents "
         "(n=0..4; one or two arguments, positional or keyword, each a single object or a list / tuple / ndarray of length n or of another "
         "length), the rejected assignment model.agents = [...], remove (also twice, also of held agents), remove_all_agents, "
         "model.register_agent / model.deregister_agent called directly (also twice, also on removed-but-held agents), in-place "
